@@ -18,7 +18,22 @@ def getPairs (j : Json) : Except String (List (Nat × Nat)) := do
     | [a, b] => return (a, b)
     | _ => .error "expected index pair"
 
+def getIntList (j : Json) : Except String (List Int) := do (← getArr j).mapM (·.getInt?)
+
+/-- inputs with repeated events: `ev` (position → identity) and the comparison on identities -/
+def handleEv (op : String) (a : Json) : Except String Json := do
+  let ev ← getNatList (← fld a "ev")
+  let A ← getAdj (← fld a "adj")
+  match op with
+  | "group_ev" =>
+    return valJ (Json.mkObj [("groups", groupsJ (groupEv ev A)), ("calls", pairsJ (callsEv ev))])
+  | _ =>
+    let out ← fld a "out"
+    let gs ← (← fldArr out "groups").mapM getNatList
+    return boolJ (holdsEv ev A gs (← getPairs (← fld out "calls")))
+
 def handle (op : String) (a : Json) : Except String Json := do
+  if op == "group_ev" || op == "holds_ev" then return ← handleEv op a
   let n ← fldNat a "n"
   let adj ← getAdj (← fld a "adj")
   match op with
@@ -31,6 +46,25 @@ def handle (op : String) (a : Json) : Except String Json := do
     let out ← fld a "out"
     let gs ← (← fldArr out "groups").mapM getNatList
     return boolJ (holds n adj gs (← getPairs (← fld out "calls")))
+  | "stages" =>
+    -- what was observed at the call of `connected_components` (matrix passed, labels returned) and
+    -- the groups finally returned, against the model's stages
+    let rows ← (← fldArr a "matrix").mapM getIntList
+    let labs ← getNatList (← fld a "labels")
+    let gs ← (← fldArr a "groups").mapM getNatList
+    let marr : Array (Array Int) := (rows.map List.toArray).toArray
+    let m : Nat → Nat → Bool := fun x y => ((marr.getD x #[]).getD y 0) != 0
+    let loop := groupLoop (fun x => labs.getD x 0) n
+    -- `dense n adj x y = (coo n adj).count (x, y)` by definition; the coordinate list is computed once
+    let c := coo n adj
+    let d : Nat → Nat → Nat := fun x y => c.count (x, y)
+    let drows := (List.range n).map fun x => (List.range n).map fun y => Int.ofNat (d x y)
+    return Json.mkObj [
+      ("matrix", boolJ (rows == drows)),
+      ("contract", boolJ (componentsOK n m labs)),
+      ("pipeline", boolJ (componentsOK n (fun x y => d x y != 0) labs)),
+      ("loop", boolJ (loop == gs)),
+      ("loop_perm", boolJ (gs.isPerm loop))]
   | _ => .error s!"C13: unknown op {op}"
 
 end SE.Ops.C13
